@@ -243,6 +243,45 @@ impl Side {
                         m
                     }
                 }
+                // one large write (the kernel splits it into several WRITE requests): `len` bytes of a rolling pattern
+                "fillwrite" => {
+                    let Some(fd) = self.fd(op) else { return st("NOSLOT") };
+                    let len = u(op, "len") as usize;
+                    let d: Vec<u8> = (0..len).map(|k| 33 + ((k as u64 * 7 + k as u64 / 251) % 90) as u8).collect();
+                    let n = libc::pwrite64(fd, d.as_ptr() as *const libc::c_void, d.len(), u(op, "off") as i64);
+                    if n < 0 {
+                        err()
+                    } else {
+                        let mut m = ok();
+                        m.insert("n".into(), json!(n));
+                        m
+                    }
+                }
+                // many entries in one directory (READDIR / READDIRPLUS come in several batches)
+                "mkmany" | "rmmany" => {
+                    let mut done = 0;
+                    for k in 0..u(op, "count") {
+                        let c = cstr(format!("{}/e{:04}", s(op, "path"), k).as_bytes());
+                        let x = if o == "mkmany" {
+                            let fd = libc::openat(r, c.as_ptr(), libc::O_CREAT | libc::O_WRONLY | libc::O_EXCL | libc::O_CLOEXEC, 0o644);
+                            if fd >= 0 {
+                                libc::close(fd);
+                            }
+                            fd
+                        } else {
+                            libc::unlinkat(r, c.as_ptr(), 0)
+                        };
+                        if x < 0 {
+                            let mut m = err();
+                            m.insert("n".into(), json!(done));
+                            return m;
+                        }
+                        done += 1;
+                    }
+                    let mut m = ok();
+                    m.insert("n".into(), json!(done));
+                    m
+                }
                 "ftruncate" => {
                     let Some(fd) = self.fd(op) else { return st("NOSLOT") };
                     if libc::ftruncate64(fd, u(op, "size") as i64) == 0 { ok() } else { err() }
@@ -434,7 +473,7 @@ const EXIST: &[&str] = &["f1", "f2", "f3", "big", "d1", "d2", "d3", "g", "ln", "
 const FILES: &[&str] = &["f1", "f2", "f3", "g", "hl", "f1", "f3", "x", "y"];
 const NEWN: &[&str] = &["x", "y", "z", "w"];
 const DIRS: &[&str] = &["", "", "", "d1", "d2", "d3", "x"];
-const MODES: &[u32] = &[0o644, 0o600, 0o755, 0o700, 0o777, 0o444, 0o000, 0o666, 0o640];
+const MODES: &[u32] = &[0o644, 0o600, 0o755, 0o700, 0o777, 0o444, 0o000, 0o666, 0o640, 0o4755, 0o2755, 0o6711, 0o1777];
 
 struct Gen {
     rng: Rng,
@@ -500,7 +539,7 @@ impl Gen {
             }
             "open" => {
                 let mut fl = *self.rng.pick(&[libc::O_RDONLY, libc::O_WRONLY, libc::O_RDWR, libc::O_RDWR]);
-                if !self.caching && self.rng.chance(1, 5) {
+                if self.rng.chance(1, 5) {
                     fl |= libc::O_APPEND;
                 }
                 if self.rng.chance(1, 5) {
@@ -664,6 +703,17 @@ fn prefix() -> Vec<J> {
         json!({"op": "listxattr", "path": "t/m"}), json!({"op": "removexattr", "path": "t/m", "xname": "user.a"}), json!({"op": "stat", "path": "t/m"}),
         json!({"op": "readdir", "path": "t"}), json!({"op": "statfs", "path": "t"}), json!({"op": "readlink", "path": "t/s"}), json!({"op": "close", "fd": 0}),
         json!({"op": "unlink", "path": "t/l"}), json!({"op": "unlink", "path": "t/s"}), json!({"op": "unlink", "path": "t/m"}), json!({"op": "rmdir", "path": "t"}),
+        // one write larger than a FUSE request, read back across the request boundaries; a directory larger than one READDIR reply
+        json!({"op": "open", "path": "f2", "flags": libc::O_RDWR | libc::O_TRUNC, "mode": 0}), json!({"op": "fillwrite", "fd": 1, "off": 3, "len": 300_000}),
+        json!({"op": "pread", "fd": 1, "off": 131_070, "len": 8}), json!({"op": "pread", "fd": 1, "off": 299_990, "len": 64}), json!({"op": "fstat", "fd": 1}),
+        json!({"op": "ftruncate", "fd": 1, "size": 70_000}), json!({"op": "pread", "fd": 1, "off": 69_990, "len": 64}), json!({"op": "close", "fd": 1}),
+        json!({"op": "open", "path": "f1", "flags": libc::O_WRONLY | libc::O_APPEND, "mode": 0}), json!({"op": "write", "fd": 2, "data": [65, 66]}), json!({"op": "pwrite", "fd": 2, "off": 0, "data": [67]}),
+        json!({"op": "close", "fd": 2}), json!({"op": "stat", "path": "hl"}),
+        json!({"op": "mkdir", "path": "many", "mode": 0o755}), json!({"op": "mkmany", "path": "many", "count": 150}), json!({"op": "readdir", "path": "many"}),
+        json!({"op": "rmmany", "path": "many", "count": 150}), json!({"op": "rmdir", "path": "many"}),
+        // unlink and rename of open files: the handles keep working
+        json!({"op": "open", "path": "f3", "flags": libc::O_RDWR, "mode": 0}), json!({"op": "unlink", "path": "f3"}), json!({"op": "pwrite", "fd": 3, "off": 2, "data": [48]}),
+        json!({"op": "pread", "fd": 3, "off": 0, "len": 16}), json!({"op": "fstat", "fd": 3}), json!({"op": "close", "fd": 3}),
         // a non-root caller: creating in a world-writable directory, refused elsewhere
         json!({"op": "mkdir", "path": "d2/u", "mode": 0o700, "uid": 1000, "gid": 1000}), json!({"op": "open", "path": "d2/u/c", "flags": libc::O_CREAT | libc::O_WRONLY, "mode": 0o640, "uid": 1000, "gid": 1000}),
         json!({"op": "mkdir", "path": "d3/u", "mode": 0o700, "uid": 1000, "gid": 1000}), json!({"op": "stat", "path": "d2/u/c"}),
@@ -683,10 +733,23 @@ fn rows(m: &BTreeMap<String, J>) -> Vec<&J> {
 }
 
 #[allow(clippy::too_many_arguments)]
-fn client<T>(seg: usize, cfg: &Cfg, base: &Path, len: usize, seed: u64, tr: &mut Trace, log: &Arc<Mutex<Vec<Value>>>, tables: T) -> bool
+fn client<T, R>(seg: usize, cfg: &Cfg, base: &Path, len: usize, seed: u64, tr: &mut Trace, log: &Arc<Mutex<Vec<Value>>>, tables: T, refcount: R) -> bool
 where
     T: Fn() -> Option<(usize, usize, usize)>,
+    R: Fn(u64) -> Option<Option<u64>>,
 {
+    // every inode number the server ever handed out in this session
+    let handed: std::cell::RefCell<HashSet<u64>> = std::cell::RefCell::new(HashSet::new());
+    let note = |v: Vec<J>| -> Vec<J> {
+        for e in &v {
+            if e[0] == "ent" {
+                if let Some(i) = e[3].as_str().and_then(|x| x.parse::<u64>().ok()) {
+                    handed.borrow_mut().insert(i);
+                }
+            }
+        }
+        v
+    };
     let mnt = base.join("mnt");
     let (e_top, a_top, b_top) = (base.join("E"), base.join("A"), base.join("B"));
     let Some(mut ms) = Side::new(&mnt, &e_top.join("S")) else { return false };
@@ -703,7 +766,7 @@ where
         m
     };
     let v0 = view(&mut mids);
-    tr.emit(&json!({"e": "Reset", "seg": seg, "cfg": cfg.json(), "export": rows(&et), "shadow": rows(&at), "shadow2": rows(&bt), "view": rows(&v0), "reqs": drain(log)}));
+    tr.emit(&json!({"e": "Reset", "seg": seg, "cfg": cfg.json(), "export": rows(&et), "shadow": rows(&at), "shadow2": rows(&bt), "view": rows(&v0), "reqs": note(drain(log))}));
     let mut g = Gen { rng: Rng::new(seed), fds: Vec::new(), caching: cfg.timeout_ms != 0 || cfg.wb };
     let view_every = 5;
     let pre = prefix();
@@ -737,8 +800,23 @@ where
             ev["view"] = json!(rows(&v));
             ev["shadow"] = json!(rows(&at));
         }
-        ev["reqs"] = json!(drain(log));
+        ev["reqs"] = json!(note(drain(log)));
         tr.emit(&ev);
+    }
+    // the server's own lookup counts against the kernel's accounting, while the client is idle and still holds everything
+    {
+        let reqs = note(drain(log));
+        let mut server = Map::new();
+        let mut have = false;
+        for i in handed.borrow().iter() {
+            if let Some(c) = refcount(*i) {
+                have = true;
+                if let Some(c) = c {
+                    server.insert(i.to_string(), json!(c.min(1 << 30)));
+                }
+            }
+        }
+        tr.emit(&json!({"e": "Refs", "seg": seg, "reqs": reqs, "known": have, "server": J::Object(server)}));
     }
     // the end of the session: every descriptor of the client is closed, the kernel is asked to let go of what it caches
     ms.close_all();
@@ -760,7 +838,7 @@ where
     let (ef, _) = digests(&e_top, &mut eids);
     let (af, _) = digests(&a_top, &mut aids);
     let t = tables();
-    tr.emit(&json!({"e": "End", "seg": seg, "export": rows(&ef), "shadow": rows(&af), "reqs": drain(log), "dropped_caches": dropped,
+    tr.emit(&json!({"e": "End", "seg": seg, "export": rows(&ef), "shadow": rows(&af), "reqs": note(drain(log)), "dropped_caches": dropped,
                     "tables": t.map(|t| json!({"inodes": t.0, "handles": t.1})).unwrap_or(json!({}))}));
     true
 }
@@ -811,7 +889,8 @@ fn run_segment(seg: usize, cfg: &Cfg, work: &Path, len: usize, seed: u64, tr: &m
             threads.push(std::thread::spawn(move || svc_loop(sv, ch)));
         }
         let f2 = fs.clone();
-        okk = client(seg, cfg, &base, len, seed, tr, &log, move || Some(f2.verif_table_sizes()));
+        let f3 = fs.clone();
+        okk = client(seg, cfg, &base, len, seed, tr, &log, move || Some(f2.verif_table_sizes()), move |i| Some(f3.verif_refcount(i)));
     } else {
         let vfs = Vfs::new(VfsOptions { no_open: false, no_opendir: false, no_writeback: !cfg.wb, ..Default::default() });
         vfs.mount(Box::new(fs), "/").expect("vfs mount");
@@ -822,7 +901,7 @@ fn run_segment(seg: usize, cfg: &Cfg, work: &Path, len: usize, seed: u64, tr: &m
             let (sv, ch) = (server.clone(), se.new_channel().expect("new_channel"));
             threads.push(std::thread::spawn(move || svc_loop(sv, ch)));
         }
-        okk = client(seg, cfg, &base, len, seed, tr, &log, || None);
+        okk = client(seg, cfg, &base, len, seed, tr, &log, || None, |_| None);
     }
     let r = se.umount();
     let _ = se.wake();
